@@ -604,18 +604,23 @@ var dateAttrCycle = []string{"dateCreated", "startDate", "paymentDueDate", "date
 // the Unix epoch or right next to it, written in the usual zone notations; two permanodes without a
 // higher-priority date attribute get a camliContent file whose modtime is exactly the epoch.
 func (w *sworld) genEpochFeatures(rng *rand.Rand, label string, claim func(kind string, pn blob.Ref, attr, val string) time.Time) {
-	specials := []time.Time{unixEpoch, unixEpoch, unixEpoch.Add(-time.Second), unixEpoch.Add(time.Second), unixEpoch,
-		unixEpoch.Add(1), unixEpoch.Add(-1), unixEpoch.Add(999 * time.Millisecond), unixEpoch, unixEpoch.Add(-999 * time.Millisecond)}
+	specials := []time.Time{unixEpoch, unixEpoch.Add(1), unixEpoch.Add(-time.Second), unixEpoch.Add(time.Second), unixEpoch,
+		unixEpoch.Add(-1), unixEpoch.Add(999 * time.Millisecond), unixEpoch, unixEpoch.Add(-999 * time.Millisecond), unixEpoch}
 	off, k := rng.Intn(60), 0
 	for i, pn := range w.pns {
-		if i%7 == 6 || i%2 == 1 {
+		if !specialTimeCarrier(i) {
 			continue
 		}
-		k++
-		inst := specials[(off+k)%len(specials)]
+		inst := specials[k%len(specials)]
 		attr := dateAttrCycle[(off/2+k)%len(dateAttrCycle)]
 		val, note := zoneNotation(inst, (off/3+k)%6)
+		k++
 		claim(hw.Set, pn, attr, val)
+		if t, _ := w.anyTime(pn); !t.Equal(inst) {
+			// shadowed by a date of higher priority: use the attribute of the highest one
+			attr = dateAttrsBeforeFile[0]
+			claim(hw.Set, pn, attr, val)
+		}
 		w.dates = append(w.dates, inst)
 		w.features["date-attr/"+attr]++
 		w.features["date-attr/notation/"+note]++
@@ -630,17 +635,13 @@ func (w *sworld) genEpochFeatures(rng *rand.Rand, label string, claim func(kind 
 	w.names = append(w.names, "epoch.bin")
 	n := 0
 	for i, pn := range w.pns {
-		if i%7 == 6 || i%5 == 4 || i%2 == 0 || n >= 2 {
+		if i%7 == 6 || i%5 == 4 || i%4 != 1 || n >= 2 {
 			continue
 		}
-		shadowed := false
 		for _, a := range dateAttrsBeforeFile {
 			if _, ok := w.attrTime(pn, a); ok {
-				shadowed = true
+				claim(hw.Del, pn, a, "") // (a date of higher priority than the file's)
 			}
-		}
-		if shadowed {
-			continue
 		}
 		claim(hw.Set, pn, "camliContent", fb.Ref.String())
 		w.features["epoch/camliContent-file-with-modtime-0"]++
@@ -649,21 +650,29 @@ func (w *sworld) genEpochFeatures(rng *rand.Rand, label string, claim func(kind 
 	w.dates = append(w.dates, unixEpoch, unixEpoch.Add(time.Second), unixEpoch.Add(-time.Second), unixEpoch.Add(1), unixEpoch.Add(-1), unixEpoch.Add(500*time.Millisecond))
 }
 
-// genFarDates (worldOpts.far): date attributes outside the years 1678..2262 on every other permanode.
+// specialTimeCarrier: the permanodes (by ordinal) that carry the special dates of the epoch / far
+// worlds: about half of those that have claims and are not deleted later on.
+func specialTimeCarrier(i int) bool { return i%7 != 6 && i%5 != 4 && i%4 != 1 }
+
+// genFarDates (worldOpts.far): date attributes outside the years 1678..2262 on about half of the permanodes.
 func (w *sworld) genFarDates(rng *rand.Rand, claim func(kind string, pn blob.Ref, attr, val string) time.Time) {
-	off, k := rng.Intn(len(farDateValues)*6), 0
+	off, k := rng.Intn(len(dateAttrCycle)*6), 0
 	for i, pn := range w.pns {
-		if i%7 == 6 || i%2 == 1 {
+		if !specialTimeCarrier(i) {
 			continue
 		}
+		val := farDateValues[k%len(farDateValues)]
+		attr := dateAttrCycle[(off+k)%len(dateAttrCycle)]
 		k++
-		val := farDateValues[(off+k)%len(farDateValues)]
-		attr := dateAttrCycle[(off/3+k)%len(dateAttrCycle)]
 		inst, err := time.Parse(time.RFC3339, val)
 		if err != nil {
 			panic(err)
 		}
 		claim(hw.Set, pn, attr, val)
+		if t, _ := w.anyTime(pn); !t.Equal(inst) {
+			attr = dateAttrsBeforeFile[0]
+			claim(hw.Set, pn, attr, val)
+		}
 		w.dates = append(w.dates, inst)
 		w.features["date-attr/"+attr]++
 		w.features["date-attr/notation/"+zoneOf(val)]++
